@@ -2,6 +2,9 @@
 //! (single objectives, `multi-objective` layers with every strategy, the default objectives), the goal contexts the code
 //! hands out for them (main and, through `Alternative::maybe_new`, every alternative), evaluated on small real solutions:
 //! total_order(a,b), total_order(b,a), total_order(a,a), fitness(a), fitness(b) for every requested pair and context.
+//! Estimates: for requested moves (a route-level and an activity-level move of an unassigned job into a tour of a solution) the
+//! InsertionCost every context estimates, next to the estimates of the single objectives of the same move, which the TWIN document
+//! reports (the same problem whose `objectives` list the same objectives flattened into single layers: one component per objective).
 use serde_json::{json, Value};
 use std::sync::Arc;
 use vh::util::*;
@@ -12,6 +15,9 @@ use vrp_core::rosomaxa::population::Alternative;
 use vrp_core::rosomaxa::prelude::HeuristicObjective;
 use vrp_core::rosomaxa::utils::RandomGen;
 use vrp_pragmatic::format::problem::PragmaticProblem;
+use vrp_scientific::lilim::LilimProblem;
+use vrp_scientific::solomon::SolomonProblem;
+use vrp_scientific::tsplib::TsplibProblem;
 
 struct ScriptedRandom {
     hit: bool,
@@ -55,7 +61,7 @@ fn err_code(msg: &str) -> i64 {
 }
 
 /// vehicles v<k> (own type, start at location index k, optional return), jobs j<i> (delivery at location index nv+i)
-fn documents(case: &Value) -> (String, String) {
+fn documents(case: &Value, objectives: &Value) -> (String, String) {
     let nv = usize_of(&case["vehicles"]);
     let nj = usize_of(&case["jobs"]);
     let values = i64s_of(&case["values"]);
@@ -87,8 +93,8 @@ fn documents(case: &Value) -> (String, String) {
         })
         .collect();
     let mut problem = json!({"plan": {"jobs": jobs}, "fleet": {"vehicles": vehicles, "profiles": [{"name": "car"}]}});
-    if !case["objectives"].is_null() {
-        problem["objectives"] = case["objectives"].clone();
+    if !objectives.is_null() {
+        problem["objectives"] = objectives.clone();
     }
     let matrix = json!({"profile": "car", "travelTimes": case["times"], "distances": case["distances"]});
     (problem.to_string(), matrix.to_string())
@@ -155,6 +161,57 @@ fn create_solution(problem: &Arc<Problem>, assignment: &Value) -> InsertionConte
     ctx
 }
 
+fn cbits(x: f64) -> Value {
+    if x.is_nan() { Value::String(0x7FF8000000000000u64.to_string()) } else { bits_of(x) }
+}
+
+/// [route-level estimate, activity-level estimate (null when the job cannot be inserted)] of every given context for the move
+/// "job j<job> into the tour of vehicle v<vehicle> (a new tour if the vehicle is unused), last position" in the given solution
+fn estimates(problem: &Arc<Problem>, ctxs: &[GoalContext], solution: &InsertionContext, job: i64, vehicle: i64) -> Vec<Value> {
+    let job_id = format!("j{}", job);
+    let vehicle_id = format!("v{}", vehicle);
+    let job = problem.jobs.all().iter().find(|j| j.dimens().get_job_id().is_some_and(|id| *id == job_id)).cloned().expect("job");
+    let is_vehicle =
+        |route_ctx: &RouteContext| *route_ctx.route().actor.vehicle.dimens.get_vehicle_id().unwrap() == vehicle_id;
+    let fresh;
+    let route_ctx = match solution.solution.routes.iter().find(|r| is_vehicle(r)) {
+        Some(r) => r,
+        None => {
+            fresh = solution.solution.registry.next_route().find(|r| is_vehicle(r)).expect("vehicle").deep_copy();
+            &fresh
+        }
+    };
+    let result = eval_job_insertion_in_route(
+        solution,
+        &EvaluationContext {
+            goal: problem.goal.as_ref(),
+            job: &job,
+            leg_selection: &LegSelection::Exhaustive,
+            result_selector: &BestResultSelector::default(),
+        },
+        route_ctx,
+        InsertionPosition::Last,
+        InsertionResult::make_failure(),
+    );
+    let row = |c: InsertionCost| Value::Array(c.iter().map(cbits).collect());
+    ctxs.iter()
+        .map(|gc| {
+            let route_level = row(gc.estimate(&MoveContext::route(&solution.solution, route_ctx, &job)));
+            let activity_level = match &result {
+                InsertionResult::Success(success) if success.activities.len() == 1 => {
+                    let (target, index) = (&success.activities[0].0, success.activities[0].1);
+                    let tour = &route_ctx.route().tour;
+                    let activity_ctx =
+                        ActivityContext { index, prev: tour.get(index).expect("prev"), target, next: tour.get(index + 1) };
+                    row(gc.estimate(&MoveContext::activity(&solution.solution, route_ctx, &activity_ctx)))
+                }
+                _ => Value::Null,
+            };
+            json!([route_level, activity_level])
+        })
+        .collect()
+}
+
 fn follow(gc: &GoalContext, path: &Value) -> GoalContext {
     path.as_array().unwrap().iter().fold(gc.clone(), |c, step| {
         c.maybe_new(&ScriptedRandom { hit: i64_of(&step[0]) != 0, draw: i64_of(&step[1]) as i32 })
@@ -169,8 +226,96 @@ fn observe(gc: &GoalContext, a: &InsertionContext, b: &InsertionContext) -> Vec<
     ]
 }
 
+/// builds a solution of a problem read by a scientific reader: [[job index, vehicle index], ..] (indices into jobs.all() and into
+/// the routes of the registry), every job appended last to the tour
+fn create_solution_by_index(problem: &Arc<Problem>, assignment: &Value) -> InsertionContext {
+    let mut ctx = InsertionContext::new(problem.clone(), Arc::new(Environment::default()));
+    let jobs = ctx.solution.unassigned.drain().map(|(job, _)| job).collect::<Vec<_>>();
+    ctx.solution.required.extend(jobs);
+    problem.goal.accept_solution_state(&mut ctx.solution);
+    let actors: Vec<_> = ctx.solution.registry.next_route().map(|r| r.route().actor.clone()).collect();
+    for pair in assignment.as_array().unwrap() {
+        let job = problem.jobs.all()[usize_of(&pair[0])].clone();
+        let actor = actors[usize_of(&pair[1]) % actors.len()].clone();
+        let route_idx = ctx.solution.routes.iter().position(|r| r.route().actor == actor).unwrap_or_else(|| {
+            let route_ctx = ctx.solution.registry.get_route(&actor).expect("vehicle is already used");
+            ctx.solution.routes.push(route_ctx);
+            ctx.solution.routes.len() - 1
+        });
+        let result = eval_job_insertion_in_route(
+            &ctx,
+            &EvaluationContext {
+                goal: problem.goal.as_ref(),
+                job: &job,
+                leg_selection: &LegSelection::Exhaustive,
+                result_selector: &BestResultSelector::default(),
+            },
+            &ctx.solution.routes[route_idx],
+            InsertionPosition::Last,
+            InsertionResult::make_failure(),
+        );
+        let success = match result {
+            InsertionResult::Success(success) => success,
+            InsertionResult::Failure(failure) => panic!("cannot insert job: {:?}", failure.constraint),
+        };
+        let route = ctx.solution.routes[route_idx].route_mut();
+        success.activities.into_iter().for_each(|(activity, index)| {
+            route.tour.insert_at(activity, index + 1);
+        });
+        ctx.solution.required.retain(|j| *j != job);
+        problem.goal.accept_insertion(&mut ctx.solution, route_idx, &job);
+    }
+    let unassigned = ctx.solution.required.drain(..).collect::<Vec<_>>();
+    ctx.solution.unassigned.extend(unassigned.into_iter().map(|job| (job, UnassignmentInfo::Unknown)));
+    problem.goal.accept_solution_state(&mut ctx.solution);
+    ctx
+}
+
+/// the goal contexts of the scientific text readers: {"sci": {"fmt": solomon|lilim|tsplib, "text": ..}, solutions, pairs, paths}
+fn run_sci(case: &Value) -> Value {
+    let text = case["sci"]["text"].as_str().unwrap().to_string();
+    let problem = match case["sci"]["fmt"].as_str().unwrap() {
+        "solomon" => text.read_solomon(false),
+        "lilim" => text.read_lilim(false),
+        _ => text.read_tsplib(false),
+    };
+    let problem = match problem {
+        Ok(p) => Arc::new(p),
+        Err(e) => {
+            let msg = e.to_string();
+            return json!({"obs": [[-1, err_code(&msg)]], "err": msg});
+        }
+    };
+    let goal = problem.goal.as_ref();
+    let solutions: Vec<InsertionContext> =
+        case["solutions"].as_array().unwrap().iter().map(|s| create_solution_by_index(&problem, s)).collect();
+    // the values of (unassigned, tours, distance): what the built-in alternative reports at positions 0, 2, 3 (position 1 is known_edge)
+    let builtin = follow(goal, &json!([[1, 0]]));
+    let fit: Vec<Value> = solutions
+        .iter()
+        .map(|s| {
+            let f: Vec<Float> = builtin.fitness(s).collect();
+            json!([bits_of(f[0]), bits_of(f[2]), bits_of(f[3])])
+        })
+        .collect();
+    let shape: Vec<Value> =
+        solutions.iter().map(|s| json!([s.solution.routes.len(), s.solution.unassigned.len()])).collect();
+    let ctxs: Vec<GoalContext> = case["paths"].as_array().unwrap().iter().map(|p| follow(goal, p)).collect();
+    let mut obs = Vec::new();
+    for pair in case["pairs"].as_array().unwrap() {
+        let (a, b) = (&solutions[usize_of(&pair[0])], &solutions[usize_of(&pair[1])]);
+        for gc in ctxs.iter() {
+            obs.extend(observe(gc, a, b));
+        }
+    }
+    json!({"obs": obs, "fit": fit, "shape": shape, "est": []})
+}
+
 pub fn run_case(case: &Value) -> Value {
-    let (problem, matrix) = documents(case);
+    if !case["sci"].is_null() {
+        return run_sci(case);
+    }
+    let (problem, matrix) = documents(case, &case["objectives"]);
     let problem = match (problem, vec![matrix]).read_pragmatic() {
         Ok(p) => Arc::new(p),
         Err(e) => {
@@ -195,7 +340,22 @@ pub fn run_case(case: &Value) -> Value {
             obs.extend(observe(gc, a, b));
         }
     }
-    json!({"obs": obs, "fit": fit, "shape": shape})
+    // estimates: the contexts of the document against the single objectives reported by the twin document
+    let mut est = Vec::new();
+    if let Some(moves) = case.get("moves").and_then(|m| m.as_array()).filter(|m| !m.is_empty()) {
+        let (twin, matrix) = documents(case, &case["twin"]);
+        let twin = Arc::new((twin, vec![matrix]).read_pragmatic().expect("the twin document is not accepted"));
+        let twin_solutions: Vec<InsertionContext> =
+            case["solutions"].as_array().unwrap().iter().map(|s| create_solution(&twin, s)).collect();
+        let twin_ctx = [twin.goal.as_ref().clone()];
+        for m in moves {
+            let (si, job, vehicle) = (usize_of(&m[0]), i64_of(&m[1]), i64_of(&m[2]));
+            let single = estimates(&twin, &twin_ctx, &twin_solutions[si], job, vehicle).remove(0);
+            let rows = estimates(&problem, &ctxs, &solutions[si], job, vehicle);
+            est.push(json!({"single": single, "ctx": rows}));
+        }
+    }
+    json!({"obs": obs, "fit": fit, "shape": shape, "est": est})
 }
 
 fn main() {
